@@ -18,7 +18,7 @@ RULE = ("rejected queries of every error class (lexer error tokens, parser expec
         "0 <= err.token.index <= len(query), and the ', line L, column C' suffix of str(err) equals (1 + number of LF before the offset, "
         "offset - offset of the first character of that line) — the convention pinned by the repository's own single-line tests; a lone CR "
         "is accepted under either the LF-only or the universal-newline convention. Non-trivial: >=1 LF before the reported offset; "
-        "distinct by string. A concurrent part lets 4-8 threads compile 56 rejected queries (most with the error inside a long string literal) on ONE shared environment with GIL hand-offs injected on lines of the package; every error (class, offset, message with line and column) must equal the one the query gives sequentially.")
+        "distinct by string. A scale battery repeats this for offending tokens of 500-70000 characters, errors far into very long queries and nesting of 200-10000 levels (whenever the outcome is a JSONPathError). A concurrent part lets 4-8 threads compile 56 rejected queries (most with the error inside a long string literal) on ONE shared environment with GIL hand-offs injected on lines of the package; every error (class, offset, message with line and column) must equal the one the query gives sequentially.")
 ASSUMPTIONS = ["line = 1-based, column = 0-based, as pinned by tests/test_errors.py and tests/test_cli.py", "CR-only line breaks: either convention accepted"]
 DECIDING_MONITORS_NOTE = "the concurrent part counts as M-compile-rejected events"
 DECIDING_MONITORS = ["M-compile-rejected"]
@@ -231,12 +231,38 @@ def thread_part(jp, rec, R, spec):
     rec.sample({"thread_runs": spec["runs"], "note": "see features thread-switches-inside-package"}, limit=1)
 
 
+def scale_battery(jp, rec):
+    """Rejected queries whose offending token is very long, whose error sits tens of thousands of characters into the query,
+    or which are nested so deeply that the parser may give up: whenever the outcome is a JSONPathError, its position is real."""
+    big = []
+    for n in (500, 960, 1000, 1100, 5000, 70000):
+        big += ["$[?" + "f" * n + "(@.a)]", "$[0" + "1" * n + "]", "$[1:0" + "7" * n + "]", "$." + "a" * n + "[", "$['" + "a" * n + "\x01']", "$[?@.a == '" + "b" * n + "\\z']",
+                "$" + ".a" * n + "..", "$" + " " * n + ".a b", "$\n" + ".a\n" * n + "]", "$[?@.a == 1" + " " * n + "&& ]", "$[?" + "nosuch_" * (n // 7) + "(1)]", "$[?count(" + "1" * n + ") == 1]",
+                "$[?@.a == " + "9" * n + "." + "]", "$[" + ",".join(["0"] * n) + ",01]", "$[?@." + "k" * n + " == 1 == 2]"]
+    for k in (200, 400, 1000, 3000, 10000):
+        big += ["$[?" + "(" * k + "@" + ")" * k + "]", "$" + "[?@" * k + "]" * k, "$[?" + "!(" * k + "@" + ")" * k + "]", "$[?" + "(" * k + "@", "$" + "[?@" * k, "$[?" + "length(" * k + "@" + ")" * k + " == 1]",
+                "$[?" + "(" * k + "1" + ")" * k + "]", "$[?" + "(" * k + "@.a ==" + ")" * k + "]"]
+    for t in big:
+        rec.wal({"compile": t[:60] + "... (%d characters)" % len(t)})
+        try:
+            with guard(60):
+                r = check(jp, rec, t, "scale")
+        except CaseTimeout:
+            rec.timeout(t[:60])
+            continue
+        rec.feat("scale-battery:" + ("not-a-jsonpath-error-or-accepted" if r is None else "position-checked"))
+        if r is not None:
+            rec.case(("scale", len(t), t[:40]), True)
+
+
 def run_shard(spec, rec):
     import jsonpath_rfc9535 as jp
     R = random.Random(spec["seed"])
     if spec.get("kind") == "threads":
         thread_part(jp, rec, R, spec)
         return
+    if spec.get("shard") == 0:
+        scale_battery(jp, rec)
     user = c05.make_registry(R, spec)
     sigs = dict(BUILTIN_SIGS)
     sigs.update(user)
